@@ -79,11 +79,12 @@ def _cp(c):
 
 class SStr(V):
     """chars: list of z3 Int (code points) when the length is known, else expr: z3 String"""
-    __slots__ = ('chars', 'expr')
+    __slots__ = ('chars', 'expr', 'tag')
 
     def __init__(self, chars=None, expr=None):
         self.chars = [_cp(c) for c in chars] if chars is not None else None
         self.expr = expr
+        self.tag = None
 
     @staticmethod
     def const(s):
@@ -145,10 +146,11 @@ class SStr(V):
 class SIte(V):
     """lazy choice between two values of possibly different python types (forced - i.e. the
     path is split - only when an operation cannot distribute over it)"""
-    __slots__ = ('c', 'a', 'b')
+    __slots__ = ('c', 'a', 'b', 'orig')
 
-    def __init__(self, c, a, b):
+    def __init__(self, c, a, b, orig=None):
         self.c, self.a, self.b = c, a, b
+        self.orig = orig      # (z3 expr, type repr) this value was decoded from, if any
 
     def __repr__(self):
         return 'SIte(%s ? %r : %r)' % (self.c, self.a, self.b)
